@@ -339,10 +339,16 @@ class BaseTemplate:
         sha = get_pkg_digest()
         sha.update(body.encode('utf-8', 'ignore'))
         sha.update(class_name)
-        digest = sha.hexdigest()
 
         filename = str(self.filename)
-        if filename and filename != BaseTemplate.filename:
+        named = bool(filename) and filename != BaseTemplate.filename
+        if named:
+            # The whole name takes part in the key: files that differ
+            # in their extension only are different templates
+            sha.update(filename.encode('utf-8', 'ignore'))
+
+        digest = sha.hexdigest()
+        if named:
             digest = os.path.splitext(filename)[0] + '-' + digest
 
         return digest
